@@ -3,6 +3,6 @@
 s=$1; shift
 cd /verif
 git -C /repo apply /verif/seeded/$s/patch.diff || { echo "cannot apply"; exit 2; }
-for c in "$@"; do echo "== $c on seed $s"; ./check $c --tier ${TIER:-quick} 2>/dev/null | cut -c1-300 | head -${LINES_MAX:-6}; echo "rc=${PIPESTATUS[0]}"; done
+for c in "$@"; do echo "== $c on seed $s"; ./check $c --tier ${TIER:-quick} > /tmp/seedtest.out 2>/dev/null; rc=$?; cut -c1-300 /tmp/seedtest.out | head -${LINES_MAX:-6}; echo "rc=$rc"; done
 git -C /repo checkout -- .
 git -C /repo status --short | grep -v testplans
